@@ -7,6 +7,7 @@ import sys
 
 VERIF = os.path.dirname(os.path.dirname(os.path.abspath(__file__)))
 sys.path.insert(0, os.path.join(VERIF, "checks"))
+sys.path.insert(0, os.path.join(VERIF, "lib"))
 import registry  # noqa: E402
 
 props = [json.loads(l)["id"] for l in open(os.path.join(VERIF, "properties.jsonl"))]
